@@ -79,12 +79,20 @@ Theorem C02_undef_filter_plan_dependence_refuted :
 Proof. exact plan_dependence_refuted. Qed.
 Print Assumptions C02_undef_filter_plan_dependence_refuted.
 
-(* The memo key (create_memo_key / serialize_filter_expression) is NOT injective: filter constants are spliced in
-   unescaped, two different conditions serialize alike.  Replayed on the real optimizer by the check
-   (known finding C02-memo-key-collision: the second UNION branch is executed with the first branch's filter). *)
-Theorem C02_memo_key_collision_refuted : expr_eqb coll1 coll2 = false /\ ser_expr coll1 = ser_expr coll2.
-Proof. exact memo_key_collision. Qed.
-Print Assumptions C02_memo_key_collision_refuted.
+(* The memo key, filter part (create_memo_key / serialize_filter_expression after the repair 276543a: the constant is written
+   with {:?}, i.e. in double quotes with the double quote and the backslash escaped): injective on the filter expressions of
+   the modelled fragment, so a memo hit on a Selection is a hit for the same condition.  (consts_ok: a constant does not
+   start with `?` - the engine reads such a value as a variable anyway.  The rest of the plan key is not modelled: partial.) *)
+Theorem C02_memo_key_injective : forall e e', consts_ok e = true -> consts_ok e' = true -> ser_expr e = ser_expr e' -> e = e'.
+Proof. exact ser_expr_injective. Qed.
+Print Assumptions C02_memo_key_injective.
+
+(* Regression for the repaired finding C02-memo-key-collision: the serialization before the repair ({var}{op}'{value}')
+   maps two different conditions to one key; the repaired one separates them. *)
+Theorem C02_memo_key_unescaped_regression :
+  expr_eqb coll1 coll2 = false /\ ser_expr_unescaped coll1 = ser_expr_unescaped coll2 /\ ser_expr coll1 <> ser_expr coll2.
+Proof. exact (conj (proj1 unescaped_key_collision) (conj (proj2 unescaped_key_collision) repaired_key_separates)). Qed.
+Print Assumptions C02_memo_key_unescaped_regression.
 
 (* non-vacuity: a plan with all three join algorithms satisfying every hypothesis of C02_plan_independent *)
 Example C02_example :
